@@ -113,6 +113,14 @@ pub fn index_biased(rng: &mut Rng, sw: &Swarm, sut: &Sut, def: &TableDef, ix: &I
         4 => format!("{} = NULL", lead),
         _ => format!("{} {} {}", lead, rng.pick(&Cmp::ALL).sql(), lit(rng)),
     };
+    if def.cols.len() >= 2 && rng.chance(1, 12) {
+        // a select-list alias that shadows the indexed column: ORDER BY <alias> sorts by the aliased
+        // expression, not by the stored column the index is built on
+        let other = def.cols.iter().map(|c| c.name.as_str()).filter(|c| !c.eq_ignore_ascii_case(lead)).collect::<Vec<_>>();
+        let o = *rng.pick(&other);
+        let sql = format!("SELECT {} AS {} FROM {} ORDER BY {}", o, lead, def.name, lead);
+        return Probe { sql, total_order: true, shape: "alias_shadows_indexed_column" };
+    }
     if rng.chance(1, 4) {
         // ORDER BY exactly the index's key columns (all of them or a leading part) in the declared
         // directions, selecting only those columns: the sequence is fully determined by the ORDER BY, and
